@@ -1,10 +1,11 @@
 (* Corr/C04.v — primary keys: the ids the implementation stored and what db[key] returns,
    against the model of _id_handler / the importer / __getitem__. *)
-From GV Require Export Corr.Import.
+From GV Require Export Corr.Import Model.GtfSpec.
 Open Scope Z_scope.
 
 Inductive lookup := LK (key : str) (impl : result row).
-Inductive case := Case (spec : idspec) (strat : strategy) (feats : list row) (impl : result tables) (lks : list lookup).
+Inductive case := Case (gtf : bool)            (* GTF dialect: the GTF importer (inference off), whose default id_spec is a dict *)
+                       (spec : idspec) (strat : strategy) (feats : list row) (impl : result tables) (lks : list lookup).
 
 (* FeatureDB.__getitem__ *)
 Definition getitem (rows : list row) (key : str) : result row :=
@@ -27,9 +28,10 @@ Definition spec_in_domain (s : idspec) : bool :=
 
 Definition verdict (c : case) : Z :=
   match c with
-  | Case spec strat feats impl lks =>
+  | Case gtf spec strat feats impl lks =>
     if negb (spec_in_domain spec) || match feats with [] => true | _ => false end then V_OUT else
-    let m := import_gff call_table strat [] spec feats empty_st in
+    let m := if gtf then import_gtf call_table (mkGtf GtfSpec.TRANSCRIPT_ID GtfSpec.GENE_ID [101;120;111;110]%N true true) strat [] spec feats empty_st
+             else import_gff call_table strat [] spec feats empty_st in
     match m with
     | Err EOther => V_OUT                       (* an id with a line break in it: outside the domain *)
     | _ =>
